@@ -130,8 +130,11 @@ def tick_desc(tick: Any) -> dict:
         return {"tick": "step_result", "step": tick.step_name, "worker": tick.worker_id,
                 "uid": uid_of(tick.event), "res": res}
     if isinstance(tick, TickAddEvent):
-        return {"tick": "add_event", "ev": ev_desc(tick.event), "uid": uid_of(tick.event),
-                "target": tick.step_name, "attempts": tick.attempts}
+        d = {"tick": "add_event", "ev": ev_desc(tick.event), "uid": uid_of(tick.event),
+             "target": tick.step_name, "attempts": tick.attempts}
+        if hasattr(tick.event, "key"):
+            d["key"] = tick.event.key
+        return d
     if isinstance(tick, TickWaiterTimeout):
         return {"tick": "waiter_timeout", "step": tick.step_name, "waiter": tick.waiter_id}
     if isinstance(tick, TickTimeout):
@@ -302,9 +305,14 @@ def gen_spec(tape, cfg: dict[str, Any]) -> dict:
                 sc.append(("fail", tape.choice(cfg["exc_pool"], "exc"),
                            tape.rng_int(1, 3, "fail.k")))
             if not sync and tape.chance(cfg["p_wait"], 100, "wait?"):
-                sc.append(("wait", tape.choice(cfg["wait_types"], "wait.type"), tape.chance(60, 100, "wait.req"),
-                           tape.choice(cfg["wait_timeouts"], "wait.timeout"),
-                           "w" if tape.chance(70, 100, "wait.id") else None,
+                w_req = tape.chance(60, 100, "wait.req")
+                w_to = tape.choice(cfg["wait_timeouts"], "wait.timeout")
+                w_id = "w" if tape.chance(70, 100, "wait.id") else None
+                if w_id is None and n != "s0":
+                    # a derived waiter id is shared by all invocations of a step that wait for the same type with
+                    # the same requirements; keep logical waits distinct (per-input requirement) outside s0
+                    w_req = True
+                sc.append(("wait", tape.choice(cfg["wait_types"], "wait.type"), w_req, w_to, w_id,
                            tape.chance(50, 100, "wait.ask")))
             if tape.chance(cfg["p_nonevent"], 100, "nonevent?"):
                 sc.append(("ret", "nonevent"))
@@ -452,6 +460,7 @@ class EngineWorld:
         self.states: set = set()
         self.wait_calls: list[dict] = []
         self.parent_of: dict[int, Any] = {}
+        self.dead_runs: dict[str, int] = {}
         self.ended = False
         boot.reset_ids()
         self.loop.executor_delay = lambda: float(self.tape.choice(self.cfg["grid"], "exec"))
@@ -521,7 +530,7 @@ class EngineWorld:
     def _enter(self, s: dict, ctx: Context, ev: Any) -> dict:
         self.inv_no += 1
         ri = ctx.retry_info()
-        rec = {"inv": self.inv_no, "step": s["name"], "uid": uid_of(ev), "t0": self.clock.t}
+        rec = {"inv": self.inv_no, "step": s["name"], "uid": uid_of(ev), "t0": self.clock.t, "run": self._run_id_of(ctx)}
         runners = self.live_runners.get(self._run_id_of(ctx), [])
         self.trace.log("enter", step=s["name"], uid=rec["uid"], inv=rec["inv"], ev=ev_desc(ev),
                        retry=ri.retry_number, lastexc=type(ri.last_exception).__name__ if ri.last_exception else None,
@@ -543,7 +552,7 @@ class EngineWorld:
 
     def _exit(self, rec: dict, kind: str, out: Any = None, **extra: Any) -> None:
         self.open_bodies.pop(rec["inv"], None)
-        self.trace.log("exit", step=rec["step"], uid=rec["uid"], inv=rec["inv"], exit=kind, out=out, **extra)
+        self.trace.log("exit", step=rec["step"], uid=rec["uid"], inv=rec["inv"], exit=kind, out=out, run=rec["run"], **extra)
 
     def _emit_allowed(self) -> bool:
         if self.emitted >= self.cfg["emit_budget"]:
@@ -622,13 +631,13 @@ class EngineWorld:
                     break
                 e = self.mk(tname, in_uid, name)
                 self.trace.log("emit", uid=e.uid, ev=tname, by=name, via="send", target=target,
-                               parent=in_uid, inv=rec["inv"])
+                               parent=in_uid, inv=rec["inv"], run=rec["run"])
                 ctx.send_event(e, step=target)
         elif op == "stream":
             for _ in range(act[1]):
                 e = self.mk("Prog", in_uid, name)
                 self.trace.log("emit", uid=e.uid, ev="Prog", by=name, via="stream", target=None,
-                               parent=in_uid, inv=rec["inv"])
+                               parent=in_uid, inv=rec["inv"], run=rec["run"])
                 ctx.write_event_to_stream(e)
         elif op == "fail":
             _, exc, k = act[:3]
@@ -652,7 +661,7 @@ class EngineWorld:
         elif op == "collect":
             _, tnames, buf = act
             got = ctx.collect_events(ev, [EV.TYPES[t] for t in tnames], buffer_id=buf)
-            self.trace.log("collect", step=name, uid=in_uid, inv=rec["inv"], buf=buf,
+            self.trace.log("collect", step=name, uid=in_uid, inv=rec["inv"], buf=buf, run=rec["run"],
                            got=[uid_of(x) for x in got] if got is not None else None,
                            gtypes=[ev_desc(x) for x in got] if got is not None else None)
             if got is None:
@@ -667,7 +676,7 @@ class EngineWorld:
             if r == "stop":
                 res = {"uid": in_uid}
                 self.trace.log("emit", uid=None, ev="StopEvent", by=name, via="return", target=None,
-                               parent=in_uid, inv=rec["inv"])
+                               parent=in_uid, inv=rec["inv"], run=rec["run"])
                 return ("returned-stop", None), StopEvent(result=self.stop_result(rec))
             if r == "nonevent":
                 return ("returned-nonevent", None), 12345
@@ -675,7 +684,7 @@ class EngineWorld:
                 return ("returned", None), None
             e = self.mk(r, in_uid, name, **(act[2] if len(act) > 2 else {}))
             self.trace.log("emit", uid=e.uid, ev=r, by=name, via="return", target=None, parent=in_uid,
-                           inv=rec["inv"])
+                           inv=rec["inv"], run=rec["run"])
             return ("returned", e.uid), e
         elif op == "wait":
             pass
@@ -702,16 +711,17 @@ class EngineWorld:
         kwargs: dict[str, Any] = {}
         if timeout != "default":
             kwargs["timeout"] = timeout
-        self.trace.log("wait-call", step=s["name"], uid=rec["uid"], inv=rec["inv"], wid=wid, type=tname,
+        actual = wid or f"waiter_{EV.TYPES[tname].__module__}.{tname}_{requirements or {}}"
+        self.trace.log("wait-call", step=s["name"], uid=rec["uid"], inv=rec["inv"], wid=wid, type=tname, run=rec["run"], waiter=actual,
                        key=key, timeout=timeout, ask=bool(ask))
         self.wait_calls.append({"step": s["name"], "uid": rec["uid"], "key": key, "type": tname})
         try:
             got = await ctx.wait_for_event(EV.TYPES[tname], waiter_event=waiter_event, waiter_id=wid,
                                            requirements=requirements, **kwargs)
         except asyncio.TimeoutError:
-            self.trace.log("wait-timeout", step=s["name"], uid=rec["uid"], inv=rec["inv"], wid=wid)
+            self.trace.log("wait-timeout", step=s["name"], uid=rec["uid"], inv=rec["inv"], wid=wid, run=rec["run"])
             return "__return_none__"
-        self.trace.log("wait-result", step=s["name"], uid=rec["uid"], inv=rec["inv"], wid=wid,
+        self.trace.log("wait-result", step=s["name"], uid=rec["uid"], inv=rec["inv"], wid=wid, run=rec["run"],
                        got=uid_of(got), gtype=ev_desc(got), key=getattr(got, "key", None), want=key)
         return got
 
@@ -725,6 +735,13 @@ class EngineWorld:
             raise
         except BaseException as e:  # noqa: BLE001
             self.trace.log("consume-error", c=name, exc=type(e).__name__)
+
+    def live_recs(self) -> list:
+        """trace without what an abandoned incarnation still did after its snapshot was taken"""
+        if not self.dead_runs:
+            return self.trace.recs
+        d = self.dead_runs
+        return [r for r in self.trace.recs if not (r[3].get("run") in d and r[0] > d[r[3]["run"]])]
 
     def close(self) -> None:
         _CURRENT_WORLD[0] = None
@@ -858,6 +875,109 @@ async def drive_standard(world: EngineWorld, spec: dict, *, extra=None) -> dict:
     if not consumer.done():
         q3 = world.loop.quiesce()
         await asyncio.wait({q3, consumer}, return_when=asyncio.FIRST_COMPLETED)
+    outcome["consumer_done"] = consumer.done()
+    world.trace.log("final", consumer_done=consumer.done())
+    for t in tasks:
+        t.cancel()
+    return outcome
+
+
+# ---------------------------------------------------------------------------
+# snapshot / resume scenario
+
+
+async def drive_resume(world: EngineWorld, spec: dict, *, extra=None) -> dict:
+    """Run, snapshot at a tape-chosen instant (ctx.to_dict -> JSON), abandon the run, resume a new run
+    from Context.from_dict, then continue like drive_standard."""
+    wf = build_workflow(spec, world)
+    start = EV.Start0(uid=world.uid())
+    world.trace.log("emit", uid=start.uid, ev="Start0", by="ext", via="start", target=None, parent=-1, inv=0)
+    handler = wf.run(start_event=start, run_id="run1")
+    world.trace.log("run-start", run="run1")
+    consumer1 = asyncio.ensure_future(world.consume(handler, "c1"))
+    tasks: list = []
+    if world.cfg["p_wait"] and any(a[0] == "wait" for st in spec["steps"] for sc in st["scripts"].values() for a in sc):
+        tasks.append(asyncio.ensure_future(responder(world, spec, handler)))
+    # snapshot instant: after d seconds of virtual time (grid sum), or at first quiescence
+    d = sum(world.tape.choice(world.cfg["grid"], "snap.at") for _ in range(world.tape.rng_int(1, 3, "snap.n")))
+    outcome: dict[str, Any] = {"handler": handler, "wf": wf}
+    if d:
+        sl = asyncio.ensure_future(asyncio.sleep(d))
+        q = world.loop.quiesce()
+        await asyncio.wait([sl, q, handler._result_task], return_when=asyncio.FIRST_COMPLETED)
+        sl.cancel()
+    else:
+        await asyncio.sleep(0)
+    if handler.is_done():
+        world.trace.log("snapshot-skipped", why="run-finished-first")
+        outcome["resumed"] = False
+        return await _finish(world, spec, handler, consumer1, tasks, outcome)
+    world.fault("snapshot-resume")
+    try:
+        snap = handler.ctx.to_dict()
+        js = json.loads(json.dumps(snap))
+    except BaseException as e:  # noqa: BLE001
+        world.trace.log("snapshot-error", exc=type(e).__name__, msg=str(e)[:200])
+        outcome["snapshot_error"] = e
+        return await _finish(world, spec, handler, consumer1, tasks, outcome)
+    world.dead_runs["run1"] = world.trace.log("snapshot", open_bodies=sorted(r["step"] for r in world.open_bodies.values()),
+                                              is_running=js.get("is_running"))
+    outcome["snapshot"] = js
+    for t in tasks:
+        t.cancel()
+    tasks = []
+    mode = world.tape.draw(2, "abandon.mode") if world.cfg.get("abandon_by_cancel") else 0
+    if mode == 0:
+        handler._external_adapter.abort()   # hard stop of the old run (process going away)
+        handler._result_task.cancel()
+    else:
+        await handler.cancel_run()
+    consumer1.cancel()
+    await asyncio.sleep(0)
+    world.trace.log("abandoned", mode="abort" if mode == 0 else "cancel_run", done=handler.is_done())
+    wf2 = build_workflow(spec, world)
+    ctx2 = Context.from_dict(wf2, js)
+    handler2 = wf2.run(ctx=ctx2, run_id="run2")
+    world.trace.log("run-start", run="run2", resumed=True)
+    outcome["resumed"] = True
+    outcome["handler"] = handler2
+    outcome["wf"] = wf2
+    consumer2 = asyncio.ensure_future(world.consume(handler2, "c2"))
+    if world.cfg["p_wait"] and any(a[0] == "wait" for st in spec["steps"] for sc in st["scripts"].values() for a in sc):
+        tasks.append(asyncio.ensure_future(responder(world, spec, handler2)))
+    if extra is not None:
+        tasks += extra(world, wf2, handler2) or []
+    return await _finish(world, spec, handler2, consumer2, tasks, outcome)
+
+
+async def _finish(world: EngineWorld, spec: dict, handler, consumer, tasks, outcome: dict) -> dict:
+    if spec["driver"] == "finish":
+        q = world.loop.quiesce()
+        await asyncio.wait([q, handler._result_task], return_when=asyncio.FIRST_COMPLETED)
+        if not handler.is_done():
+            world.trace.log("quiescent", phase="pre-fin")
+            for h in world.quiescent_hooks:
+                h(handler)
+            outcome["quiesced"] = True
+            fin = EV.Fin(uid=world.uid())
+            world.trace.log("emit", uid=fin.uid, ev="Fin", by="ext", via="ext", target=None, parent=-1, inv=0)
+            handler.ctx.send_event(fin)
+    q2 = world.loop.quiesce()
+    await asyncio.wait([q2, handler._result_task], return_when=asyncio.FIRST_COMPLETED)
+    if handler.is_done():
+        try:
+            outcome["result"] = handler._result_task.result()
+            world.trace.log("outcome", kind="result")
+        except BaseException as e:  # noqa: BLE001
+            outcome["error"] = e
+            world.trace.log("outcome", kind="error", exc=type(e).__name__)
+    else:
+        outcome["hung"] = True
+        world.trace.log("outcome", kind="not-done-at-quiescence")
+    world.ended = True
+    if not consumer.done():
+        q3 = world.loop.quiesce()
+        await asyncio.wait([q3, consumer], return_when=asyncio.FIRST_COMPLETED)
     outcome["consumer_done"] = consumer.done()
     world.trace.log("final", consumer_done=consumer.done())
     for t in tasks:
